@@ -71,9 +71,21 @@ class ErrorEstimator:
                 gamma = elem_left.gamma_space
                 assert np.allclose(gamma(elem_left.space_interval[1]),
                                    gamma(elem_right.space_interval[0]))
+                x_a = elem_left.space_interval[0]
+                x_b = elem_right.space_interval[1]
+                if x_a > x_b:
+                    # The elements touch through the closing seam of a curve
+                    # consisting of one (periodic) piece: integrate over
+                    # [x_a - L, x_b] and wrap the parameter for the residual.
+                    x_a = x_a - self.gamma_len
+
+                    def residual_t(x_hat: npt.ArrayLike,
+                                   x: npt.ArrayLike) -> npt.ArrayLike:
+                        return residual(np.repeat(t, len(x_hat)),
+                                        np.mod(x_hat, self.gamma_len), x)
+
                 val[i] = self.slobodeckij.seminorm_h_1_2(
-                    residual_t, elem_left.space_interval[0],
-                    elem_right.space_interval[1], gamma)
+                    residual_t, x_a, x_b, gamma)
             else:
                 val[i] = self.slobodeckij.seminorm_h_1_2_pw(
                     residual_t, *elem_left.space_interval,
